@@ -189,6 +189,21 @@ def main(argv):
                         ci = {id(getattr(n, "item", None)) for n in all_nodes(c) if getattr(n, "item", None) is not None}
                         if oi & ci:
                             fail("tree#%s.no_shared_item" % how, wit, "a statement of the copy holds the same reader item object as the original")
+                        # the items themselves come over as they are: same class (a preprocessor line stays a CppDirective, a
+                        # comment a Comment), same text, span, label and construct name
+                        def item_data(t):
+                            out = []
+                            for n in all_nodes(t):
+                                it = getattr(n, "item", None)
+                                if it is not None:
+                                    out.append((type(n).__name__, type(it).__name__, getattr(it, "line", None), getattr(it, "comment", None),
+                                                tuple(getattr(it, "span", ()) or ()), getattr(it, "label", None), getattr(it, "name", None),
+                                                getattr(it, "strline", None), getattr(it, "is_f2py_directive", None)))
+                            return out
+                        da, db = item_data(tree), item_data(c)
+                        if da != db:
+                            diff = [(x, y) for x, y in zip(da, db) if x != y][:2]
+                            fail("tree#%s.same_items" % how, wit, dict(first_differences=diff, count=[len(da), len(db)]))
                         before = str(tree)
                         for n in all_nodes(c):
                             it = getattr(n, "item", None)
@@ -605,6 +620,22 @@ def main(argv):
                                 fail("error#names_offending_line", dict(source=src, line=lineno, blank_lines_after=len(after), lines_before=before, options=kw), dict(message=str(e)[:120], expected_prefix=want))
                         except BaseException as e:  # noqa
                             fail("error#garbage_rejected", dict(source=src), "raised %s" % type(e).__name__)
+                # the offending statement carries a trailing comment of its own and is followed by comment lines
+                for inline in (" ! derived from x", "   !", " ! it's here"):
+                    for after in ([], ["  ! needed further down", "! more"], ["", "  ! after a blank line"], ["  ! one"]):
+                        gl = "  @@ not fortran @@" + inline
+                        src = "\n".join(lines[:li] + [gl] + after + lines[li + 1:]) + "\n"
+                        cases += 1
+                        for kw in (dict(), dict(ignore_comments=False)):
+                            try:
+                                parse(src, "f2003", **kw)
+                                fail("error#garbage_rejected", dict(source=src), "accepted")
+                            except FortranSyntaxError as e:
+                                want = "at line %d\n>>>%s\n" % (li + 1, gl)
+                                if not str(e).startswith(want):
+                                    fail("error#names_offending_line", dict(source=src, line=li + 1, inline_comment=inline, lines_after=after, options=kw), dict(message=str(e)[:120], expected_prefix=want))
+                            except BaseException as e:  # noqa
+                                fail("error#garbage_rejected", dict(source=src), "raised %s" % type(e).__name__)
                 for garbage in ("@@ not fortran @@", "= = =", "this isn't fortran", "print *, \"unterminated"):
                     for deco in decorations:
                         src = "\n".join(lines[:1] + deco + lines[1:li] + ["  " + garbage] + lines[li + 1:]) + "\n"
@@ -648,9 +679,16 @@ def main(argv):
             a, b = payload(printed), payload(source)
             # the printed form may add the blank after the keyword, it may not drop one that the source has
             return a[0] == b[0] and a[1] == b[1] and (a[2] or not b[2])
-        for name in ("plain", "module", "select_where", "labelled_do_action_term", "labelled_do_continue", "named_constructs"):
-            lines = CATALOGUE[name].splitlines()
-            base_tree = parse(CATALOGUE[name], "f2003")
+        # every kind of construct after an executable statement (a directive in front of it is then attached to the construct)
+        c14_programs = dict((n, CATALOGUE[n]) for n in ("plain", "module", "select_where", "labelled_do_action_term", "labelled_do_continue", "named_constructs"))
+        c14_programs["constructs_after_statements"] = (
+            "subroutine cs(a, n, k, p)\n  integer :: n, k\n  real :: a(n)\n  class(*) :: p\n  k = 0\n  if (k > 1) then\n    k = 1\n  else if (k < 0) then\n    k = 2\n  else\n    k = 3\n  end if\n"
+            "  k = 4\n  select case (k)\n  case (1)\n    k = 5\n  case default\n    k = 6\n  end select\n  k = 7\n  where (a > 0)\n    a = 1\n  elsewhere\n    a = 2\n  end where\n"
+            "  k = 8\n  do i = 1, n\n    a(i) = 0\n  end do\n  k = 9\n  forall (i = 1:n)\n    a(i) = 1\n  end forall\n  k = 10\n  associate (q => a(1))\n    q = 2\n  end associate\n"
+            "  k = 11\n  select type (p)\n  type is (integer)\n    k = 12\n  class default\n    k = 13\n  end select\n  k = 14\n  do while (k > 0)\n    k = k - 1\n  end do\n  k = 15\nend subroutine cs\n")
+        for name in c14_programs:
+            lines = c14_programs[name].splitlines()
+            base_tree = parse(c14_programs[name], "f2003")
             for pos in range(0, len(lines) + 1):
                 # text after the keyword of #else / #endif (the usual '#endif /* MACRO */') belongs to the directive
                 trailing = ["#else /* !HAVE_MPI */", "#endif /* HAVE_MPI */", "#endif // X", "#else  ! not X",
@@ -676,6 +714,9 @@ def main(argv):
                         continue
                     if not same_payload(str(cpp_nodes[0]), d):
                         fail("cpp#payload_intact", dict(program=name, position=pos, directive=d, source=src), dict(printed=str(cpp_nodes[0]), directive=d))
+                    shown = [l.strip() for l in str(t).splitlines()].count(str(cpp_nodes[0]).strip().splitlines()[0])
+                    if shown != 1:
+                        fail("cpp#directive_printed_once", dict(program=name, position=pos, directive=d, source=src), dict(times=shown, printed=str(t)[:600]))
                     rest = [l.strip() for l in str(t).splitlines() if l.strip() != str(cpp_nodes[0]).strip()]
                     if rest != [l.strip() for l in str(base_tree).splitlines()]:
                         fail("cpp#rest_of_tree_unchanged", dict(program=name, position=pos, directive=d, source=src), dict(printed=str(t)[:400]))
